@@ -10,6 +10,11 @@ CLAIMED = {
    "property-based testing (rapid) + generator-driven exhaustive enumeration against a reference model", "§3 C18"),
 }
 
+CLAIMED["C01"] = ("exploration",
+   "Random policies over the library's whole x86-64 table (sizes biased to the 127/255-entry jump boundaries where the assembler changes strategy) are built through Builder.Build; the exported []SockFilter is validated against a re-implementation of the kernel's acceptance rules and interpreted by an independent cBPF interpreter on a set of numbers that, for compare-only programs, partitions all 2^32 numbers (every constant K and K+-1) x 8 architecture tags x random argument words, and compared with the policy model; sampled numbers are also issued in real children with the filter installed (kernel differential); three policies are brute-forced over all 2^32 numbers x 3 arch tags in the thorough tier.",
+   "Trusts internal/bpfvm (cross-validated against the running kernel on every sampled number), the uapi header numbering, and that the partition argument holds only while the program consists of LD abs/JEQ/JGE/JGT/RET (the check classifies each program and reports it). Foreign-ABI behaviour is decided on filter semantics, not at the kernel.",
+   "property-based testing (rapid) with a reference interpreter + kernel differential", "§3 C01")
+
 NOT_YET = {}
 
 def main():
